@@ -46,7 +46,9 @@ func init() {
 			"through a channel and read back by ReadMultiTrees (real goroutine, scheduled) and by ReadTreeReader from a simulated chunked stream. Oracle: the " +
 			"reference-model view (shape with child order, names, lengths, supports) after each hop equals the source's; ids are 0,1,2,… in file order; a " +
 			"malformed tree at j gives trees 0..j-1 then exactly one error record; single reader = first record of the multi reader (or both fail), for the " +
-			"four input formats. Non-trivial: ≥ 2 trees or ≥ 2 hops; distinct = distinct (tree texts, chain)",
+			"four input formats and for a PhyloXML document of the first tree written by the harness as another program would (rooted attribute true and " +
+			"false whatever the shape). Names also carry multi-byte runes, XML-special characters and format verbs; a tenth of the lengths have many " +
+			"significant digits (1e-12 .. 1e21). Non-trivial: ≥ 2 trees or ≥ 2 hops; distinct = distinct (tree texts, chain)",
 		Gen:  genC13,
 		New:  func() any { return &C13Case{} },
 		Exec: execC13,
